@@ -25,6 +25,12 @@
 //   and named in every Reset line.
 #include <cstdio>
 #include "xtl/xany.hpp"
+#if C06_HAVE_XTYPES
+// neighbouring components as payloads (round 3); only when the runner's probe found that these headers compile in this build
+#include "xtl/xvariant.hpp"
+#include "xtl/xbasic_fixed_string.hpp"
+#include "xtl/xoptional.hpp"
+#endif
 #include "vjson.hpp"
 
 #include <iostream>
@@ -36,10 +42,95 @@
 #include <typeinfo>
 #include <utility>
 #include <vector>
+#include <cstdlib>
 #include <sys/time.h>
+
+// ------------------------------------------------------------------ replaced global operator new / delete (round 3)
+// Counts, and can be made to fail: while the library is executing one of the allocating calls (g_lib != 0) the
+// g_afuse-th allocation throws std::bad_alloc.  Allocations made in that window and not yet released are kept in a small
+// table: "heap" in every trace line is their number (storage the library - or a payload's own copy constructor -
+// obtained for contained objects).  The driver's own bookkeeping inside payload callbacks suspends the window (hush).
+namespace c06mem
+{
+    int g_lib = 0;          // inside the library's part of an allocating call
+    int g_afuse = 0;        // 0 = disarmed; n > 0: the n-th allocation inside the window fails
+    long g_failed = 0;
+    const int NLIB = 512;
+    void* LIBP[NLIB];
+    int nlib = 0;
+    bool overflow = false;
+
+    inline void* get(std::size_t n, std::size_t al)
+    {
+        bool in = g_lib != 0;
+        if (in && g_afuse > 0 && --g_afuse == 0)
+        {
+            ++g_failed;
+            throw std::bad_alloc();
+        }
+        void* p = nullptr;
+        if (al <= alignof(std::max_align_t)) p = std::malloc(n ? n : 1);
+        else if (posix_memalign(&p, al, n ? n : 1) != 0) p = nullptr;
+        if (!p) throw std::bad_alloc();
+        if (in)
+        {
+            if (nlib < NLIB) LIBP[nlib++] = p;
+            else overflow = true;
+        }
+        return p;
+    }
+    inline void put(void* p) noexcept
+    {
+        if (!p) return;
+        for (int i = nlib - 1; i >= 0; --i)
+            if (LIBP[i] == p)
+            {
+                LIBP[i] = LIBP[--nlib];
+                break;
+            }
+        std::free(p);
+    }
+    struct hush      // the driver's own code inside a library call
+    {
+        int s;
+        hush() : s(g_lib) { g_lib = 0; }
+        ~hush() { g_lib = s; }
+    };
+    struct lib_scope
+    {
+        lib_scope() { g_lib = 1; }
+        ~lib_scope() { g_lib = 0; }
+    };
+}
+void* operator new(std::size_t n) { return c06mem::get(n, 1); }
+void* operator new[](std::size_t n) { return c06mem::get(n, 1); }
+void* operator new(std::size_t n, const std::nothrow_t&) noexcept { try { return c06mem::get(n, 1); } catch (...) { return nullptr; } }
+void* operator new[](std::size_t n, const std::nothrow_t&) noexcept { try { return c06mem::get(n, 1); } catch (...) { return nullptr; } }
+void operator delete(void* p) noexcept { c06mem::put(p); }
+void operator delete[](void* p) noexcept { c06mem::put(p); }
+void operator delete(void* p, std::size_t) noexcept { c06mem::put(p); }
+void operator delete[](void* p, std::size_t) noexcept { c06mem::put(p); }
+void operator delete(void* p, const std::nothrow_t&) noexcept { c06mem::put(p); }
+void operator delete[](void* p, const std::nothrow_t&) noexcept { c06mem::put(p); }
+#if defined(__cpp_aligned_new)
+void* operator new(std::size_t n, std::align_val_t a) { return c06mem::get(n, static_cast<std::size_t>(a)); }
+void* operator new[](std::size_t n, std::align_val_t a) { return c06mem::get(n, static_cast<std::size_t>(a)); }
+void operator delete(void* p, std::align_val_t) noexcept { c06mem::put(p); }
+void operator delete[](void* p, std::align_val_t) noexcept { c06mem::put(p); }
+void operator delete(void* p, std::size_t, std::align_val_t) noexcept { c06mem::put(p); }
+void operator delete[](void* p, std::size_t, std::align_val_t) noexcept { c06mem::put(p); }
+#endif
 
 #ifndef C06_FLAVOUR
 #define C06_FLAVOUR "std"
+#endif
+#ifndef C06_HAVE_XTYPES
+#define C06_HAVE_XTYPES 0
+#endif
+#ifdef ANY_IMPL_ANY_CAST_MOVEABLE
+#define C06_MOV 1
+#else
+#define C06_MOV 0
 #endif
 // call forms on which the two published specifications of any_cast differ: the runner probes whether they compile in this build
 #ifndef C06_HAVE_LR
@@ -114,6 +205,7 @@ namespace
 
     void ev(const char* e, int id, const char* t, const char* kind, int src, long long v)
     {
+        c06mem::hush quiet;
         if (!g_ev.empty()) g_ev += ',';
         g_ev += "{\"e\":\"";
         g_ev += e;
@@ -158,6 +250,7 @@ namespace
 
         static void trip(const char* kind, int src)
         {
+            c06mem::hush quiet;
             if (g_fuse > 0 && --g_fuse == 0)
             {
                 ev("throw", 0, name(), kind, src, 0);
@@ -168,6 +261,7 @@ namespace
         payload(int v, mk)
             : val(v)
         {
+            c06mem::hush quiet;
             for (int i = 0; i < WORDS - 1; ++i) pad[i] = 0x5a5a5a5a;
             int id = R.born(this);
             ev("ctor", id, name(), "value", 0, val);
@@ -175,6 +269,7 @@ namespace
 
         payload(const payload& o) noexcept(NXC)
         {
+            c06mem::hush quiet;
             int sid = R.id_at(&o);
             bool sl = R.live_at(&o);
             if (!NXC) trip("copy", sid);
@@ -186,6 +281,7 @@ namespace
 
         payload(payload&& o) noexcept(NX)
         {
+            c06mem::hush quiet;
             int sid = R.id_at(&o);
             bool sl = R.live_at(&o);
             if (!NX) trip("move", sid);
@@ -198,6 +294,7 @@ namespace
 
         payload& operator=(const payload& o)
         {
+            c06mem::hush quiet;
             int did = R.id_at(this), sid = R.id_at(&o);
             if (R.live_at(this) && R.live_at(&o)) val = o.val;
             ev("assign", did, name(), "copy", sid, val);
@@ -206,6 +303,7 @@ namespace
 
         payload& operator=(payload&& o) noexcept
         {
+            c06mem::hush quiet;
             int did = R.id_at(this), sid = R.id_at(&o);
             if (R.live_at(this) && R.live_at(&o))
             {
@@ -219,6 +317,7 @@ namespace
 
         ~payload()
         {
+            c06mem::hush quiet;
             int id = R.id_at(this);
             // a destructor call on something that is not a live object is logged with the id last
             // seen at this address (0 if none); the spec rejects it
@@ -228,6 +327,7 @@ namespace
 
         void set(long long v)
         {
+            c06mem::hush quiet;
             int id = R.id_at(this);
             val = v;
             ev("set", id, name(), "", 0, v);
@@ -244,6 +344,48 @@ namespace
         long long v;
         long long pad;
     };
+
+    // over-aligned beyond alignof(max_align_t): must not be stored in place; whether plain `new T` honours the alignment is up to
+    // the language level of the build (C++17: yes; C++14: not guaranteed) - the full alignment is reported as "xal" (advisory)
+    struct alignas(32) Ov32
+    {
+        long long v;
+        long long pad[3];
+    };
+    struct alignas(64) Ov64
+    {
+        long long v;
+        long long pad[7];
+    };
+    // byte-aligned payloads on both sides of the two-word threshold: 16 bytes (fits) and 17 bytes (one byte too many)
+    template <int N>
+    struct bytes_t
+    {
+        unsigned char b[N];
+    };
+    using P16 = bytes_t<16>;
+    using P17 = bytes_t<17>;
+    template <int N>
+    void put_bytes(bytes_t<N>& x, long long v)
+    {
+        unsigned long long u = static_cast<unsigned long long>(v);
+        for (int i = 0; i < 8; ++i) x.b[i] = static_cast<unsigned char>(u >> (8 * i));
+        for (int i = 8; i < N; ++i) x.b[i] = static_cast<unsigned char>(0xa0 + i);
+    }
+    template <int N>
+    long long get_bytes(const bytes_t<N>& x)
+    {
+        for (int i = 8; i < N; ++i)
+            if (x.b[i] != static_cast<unsigned char>(0xa0 + i)) return UNREAD;
+        unsigned long long u = 0;
+        for (int i = 0; i < 8; ++i) u |= static_cast<unsigned long long>(x.b[i]) << (8 * i);
+        return static_cast<long long>(u);
+    }
+#if C06_HAVE_XTYPES
+    using Var = xtl::variant<int, std::string>;
+    using Fs = xtl::xfixed_string<23>;
+    using Opt = xtl::xoptional<int, bool>;
+#endif
 
     struct Box      // any inside any (xtl::any cannot be nested directly: its converting constructor excludes any itself)
     {
@@ -270,6 +412,9 @@ namespace
     static_assert(alignof(Small) <= alignof(void*) && alignof(NC) <= alignof(void*), "");
     static_assert(sizeof(Ov) == 2 * W && alignof(Ov) == 16 && alignof(Ov) > alignof(void*) && alignof(Ov) <= alignof(std::max_align_t),
                   "Ov: fits by size, not by alignment; plain new is sufficient for it");
+    static_assert(alignof(Ov32) == 32 && alignof(Ov64) == 64 && alignof(Ov32) > alignof(std::max_align_t), "over-aligned beyond max_align_t");
+    static_assert(sizeof(P16) == 2 * W && alignof(P16) == 1 && sizeof(P17) == 2 * W + 1 && alignof(P17) == 1, "byte-aligned, exactly at / one byte above the threshold");
+    static_assert(std::is_nothrow_move_constructible<P16>::value && std::is_nothrow_move_constructible<P17>::value, "");
     static_assert(sizeof(Sp) == 2 * W && std::is_nothrow_move_constructible<Sp>::value && alignof(Sp) <= alignof(void*), "shared_ptr: exactly two words");
     static_assert(sizeof(Str) > 2 * W && std::is_nothrow_move_constructible<Str>::value, "std::string: too large");
     static_assert(sizeof(int) < 2 * W && sizeof(CStr) < 2 * W && sizeof(Fn) < 2 * W, "");
@@ -439,6 +584,116 @@ namespace
         static void write(Ov& u, int v) { u.v = v; }
     };
     template <>
+    struct tt<Ov32>
+    {
+        static const bool tracked = false;
+        static const char* name() { return "Ov32"; }
+        struct arg
+        {
+            Ov32 x;
+            explicit arg(int v) { x.v = v; for (int i = 0; i < 3; ++i) x.pad[i] = 0x5a5a5a5a + i; }
+        };
+        static long long read(const Ov32& u) { return (u.pad[0] == 0x5a5a5a5a && u.pad[2] == 0x5a5a5a5a + 2) ? u.v : UNREAD; }
+        static void write(Ov32& u, int v) { u.v = v; }
+    };
+    template <>
+    struct tt<Ov64>
+    {
+        static const bool tracked = false;
+        static const char* name() { return "Ov64"; }
+        struct arg
+        {
+            Ov64 x;
+            explicit arg(int v) { x.v = v; for (int i = 0; i < 7; ++i) x.pad[i] = 0x5a5a5a5a + i; }
+        };
+        static long long read(const Ov64& u) { return (u.pad[0] == 0x5a5a5a5a && u.pad[6] == 0x5a5a5a5a + 6) ? u.v : UNREAD; }
+        static void write(Ov64& u, int v) { u.v = v; }
+    };
+    template <>
+    struct tt<P16>
+    {
+        static const bool tracked = false;
+        static const char* name() { return "P16"; }
+        struct arg
+        {
+            P16 x;
+            explicit arg(int v) { put_bytes(x, v); }
+        };
+        static long long read(const P16& u) { return get_bytes(u); }
+        static void write(P16& u, int v) { put_bytes(u, v); }
+    };
+    template <>
+    struct tt<P17>
+    {
+        static const bool tracked = false;
+        static const char* name() { return "P17"; }
+        struct arg
+        {
+            P17 x;
+            explicit arg(int v) { put_bytes(x, v); }
+        };
+        static long long read(const P17& u) { return get_bytes(u); }
+        static void write(P17& u, int v) { put_bytes(u, v); }
+    };
+#if C06_HAVE_XTYPES
+    // a variant: even values are stored as the int alternative, odd ones as the string alternative
+    template <>
+    struct tt<Var>
+    {
+        static const bool tracked = false;
+        static const char* name() { return "Var"; }
+        static Var make(int v) { return (v % 2 == 0) ? Var(v) : Var(mkstr(v)); }
+        struct arg
+        {
+            Var x;
+            explicit arg(int v) : x(make(v)) {}
+        };
+        static long long read(const Var& u)
+        {
+            if (u.valueless_by_exception()) return UNREAD;
+            if (u.index() == 0) { int v = xtl::get<0>(u); return (v % 2 == 0) ? v : UNREAD; }
+            long long v = rdstr(xtl::get<1>(u));
+            return (v == MOVED || (v != UNREAD && v % 2 != 0)) ? v : UNREAD;
+        }
+        static void write(Var& u, int v) { u = make(v); }
+    };
+    template <>
+    struct tt<Fs>
+    {
+        static const bool tracked = false;
+        static const char* name() { return "Fs"; }
+        static Fs make(int v) { return Fs(("s" + std::to_string(v)).c_str()); }
+        struct arg
+        {
+            Fs x;
+            explicit arg(int v) : x(make(v)) {}
+        };
+        static long long read(const Fs& u)
+        {
+            std::string s(u.c_str(), u.size());
+            if (s.size() < 2 || s[0] != 's' || std::strlen(u.c_str()) != u.size()) return UNREAD;
+            long long v = std::atoll(s.c_str() + 1);
+            return s == "s" + std::to_string(v) ? v : UNREAD;
+        }
+        static void write(Fs& u, int v) { u = make(v); }
+    };
+    // an optional: values divisible by three are stored as missing (the value stays readable through value())
+    template <>
+    struct tt<Opt>
+    {
+        static const bool tracked = false;
+        static const char* name() { return "Opt"; }
+        static Opt make(int v) { return Opt(int(v), bool(v % 3 != 0)); }
+        struct arg
+        {
+            Opt x;
+            explicit arg(int v) : x(make(v)) {}
+        };
+        static long long read(const Opt& u) { return u.has_value() == (u.value() % 3 != 0) ? u.value() : UNREAD; }
+        static void write(Opt& u, int v) { u = make(v); }
+    };
+#endif
+    template <>
     struct tt<Box>
     {
         static const bool tracked = false;
@@ -492,7 +747,12 @@ namespace
         return it->second;
     }
 
-#define FOR_STORED(X) X(Small) X(Big) X(STM) X(NC) X(int) X(Str) X(CStr) X(Fn) X(Sp) X(Ov) X(Box)
+#if C06_HAVE_XTYPES
+#define FOR_XTYPES(X) X(Var) X(Fs) X(Opt)
+#else
+#define FOR_XTYPES(X)
+#endif
+#define FOR_STORED(X) X(Small) X(Big) X(STM) X(NC) X(int) X(Str) X(CStr) X(Fn) X(Sp) X(Ov) X(Box) X(Ov32) X(Ov64) X(P16) X(P17) FOR_XTYPES(X)
 
     const char* type_name(const std::type_info& ti)
     {
@@ -512,6 +772,7 @@ namespace
         long long v = 0;
         int id = 0;
         bool al = true;
+        bool xal = true;
         bool tracked = false;
         std::string hits, hitm;
     };
@@ -529,7 +790,9 @@ namespace
             {
                 s.p = q;
                 s.tracked = tt<U>::tracked;
-                s.al = (reinterpret_cast<uintptr_t>(static_cast<const void*>(q)) % alignof(U)) == 0;
+                const uintptr_t addr = reinterpret_cast<uintptr_t>(static_cast<const void*>(q));
+                s.al = (addr % (alignof(U) <= alignof(std::max_align_t) ? alignof(U) : alignof(std::max_align_t))) == 0;
+                s.xal = (addr % alignof(U)) == 0;
                 s.id = tt<U>::tracked ? R.id_at(q) : 0;
                 s.v = tt<U>::read(*q);
             }
@@ -561,7 +824,7 @@ namespace
         const unsigned char* p = static_cast<const unsigned char*>(s.p);
         bool inp = p != nullptr && p >= b && p < b + sizeof(xtl::any);
         o.kv("c", 1).kb("has", a.has_value()).kb("emp", a.empty()).ks("ty", type_name(a.type()))
-            .kv("id", s.id).kv("v", clamp(s.v)).kv("loc", (s.p && !s.tracked) ? loc_of(s.p) : 0).kv("inp", inp ? 1 : 0).kb("al", s.al)
+            .kv("id", s.id).kv("v", clamp(s.v)).kv("loc", (s.p && !s.tracked) ? loc_of(s.p) : 0).kv("inp", inp ? 1 : 0).kb("al", s.al).kb("xal", s.xal)
             .kraw("hits", "[" + s.hits + "]").kraw("hitm", "[" + s.hitm + "]");
         return o.obj();
     }
@@ -621,7 +884,7 @@ namespace
     template <class U>
     void setv(result& r, const U& x)
     {
-        if (tt<U>::tracked) r.id = R.id_at(&x);
+        if (tt<U>::tracked) r.id = R.id_at(std::addressof(x));
         r.v = tt<U>::read(x);
     }
 
@@ -643,18 +906,18 @@ namespace
         else if (f == "v_cc") { const U x = xtl::any_cast<const U>(c); setv<U>(r, x); }
         else if (f == "v_r") { U x = xtl::any_cast<U>(std::move(m)); setv<U>(r, x); }
         else if (f == "v_rc") { const U x = xtl::any_cast<const U>(std::move(m)); setv<U>(r, x); }
-        else if (f == "r_m") { U& x = xtl::any_cast<U&>(m); setp<U>(r, &x); }
-        else if (f == "r_mc") { const U& x = xtl::any_cast<const U&>(m); setp<U>(r, &x); }
-        else if (f == "r_c") { const U& x = xtl::any_cast<const U&>(c); setp<U>(r, &x); }
-        else if (f == "r_r") { const U& x = xtl::any_cast<const U&>(std::move(m)); setp<U>(r, &x); }
+        else if (f == "r_m") { U& x = xtl::any_cast<U&>(m); setp<U>(r, std::addressof(x)); }
+        else if (f == "r_mc") { const U& x = xtl::any_cast<const U&>(m); setp<U>(r, std::addressof(x)); }
+        else if (f == "r_c") { const U& x = xtl::any_cast<const U&>(c); setp<U>(r, std::addressof(x)); }
+        else if (f == "r_r") { const U& x = xtl::any_cast<const U&>(std::move(m)); setp<U>(r, std::addressof(x)); }
 #if C06_HAVE_LR
-        else if (f == "lr_r") { U& x = xtl::any_cast<U&>(std::move(m)); setp<U>(r, &x); }
+        else if (f == "lr_r") { U& x = xtl::any_cast<U&>(std::move(m)); setp<U>(r, std::addressof(x)); }
 #endif
 #if C06_HAVE_XR
-        else if (f == "x_r") { U&& x = xtl::any_cast<U&&>(std::move(m)); setp<U>(r, &x); }
+        else if (f == "x_r") { U&& x = xtl::any_cast<U&&>(std::move(m)); setp<U>(r, std::addressof(x)); }
 #endif
 #if C06_HAVE_CXR
-        else if (f == "cx_r") { const U&& x = xtl::any_cast<const U&&>(std::move(m)); setp<U>(r, &x); }
+        else if (f == "cx_r") { const U&& x = xtl::any_cast<const U&&>(std::move(m)); setp<U>(r, std::addressof(x)); }
 #endif
         else script_error("unknown cast form " + f);
     }
@@ -760,7 +1023,10 @@ namespace
     void do_construct(int k, int v, const std::string& f)
     {
         typename tt<T>::arg h(v);     // the caller's value; its construction and destruction are part of the call
-        by_form<T>::construct(k, h.x, f, v);
+        {
+            c06mem::lib_scope in_library;
+            by_form<T>::construct(k, h.x, f, v);
+        }
         C[k] = true;
     }
 
@@ -768,6 +1034,7 @@ namespace
     void do_assign_value(int k, int v, const std::string& f)
     {
         typename tt<T>::arg h(v);
+        c06mem::lib_scope in_library;
         by_form<T>::assign(k, h.x, f, v);
     }
 
@@ -827,6 +1094,14 @@ namespace
         if (!c) throw desync{std::string("driver precondition: ") + what};
     }
 
+#if C06_HAVE_XTYPES
+#define BY_XTYPE(t, CALL)                                 \
+    else if (t == "Var") { CALL(Var); }                   \
+    else if (t == "Fs") { CALL(Fs); }                     \
+    else if (t == "Opt") { CALL(Opt); }
+#else
+#define BY_XTYPE(t, CALL)
+#endif
 #define BY_TYPE(t, CALL)                                  \
     if (t == "Small") { CALL(Small); }                    \
     else if (t == "Big") { CALL(Big); }                   \
@@ -838,12 +1113,18 @@ namespace
     else if (t == "Fn") { CALL(Fn); }                     \
     else if (t == "Sp") { CALL(Sp); }                     \
     else if (t == "Ov") { CALL(Ov); }                     \
-    else if (t == "Nest") { CALL(Box); }
+    else if (t == "Nest") { CALL(Box); }               \
+    else if (t == "Ov32") { CALL(Ov32); }              \
+    else if (t == "Ov64") { CALL(Ov64); }              \
+    else if (t == "P16") { CALL(P16); }                \
+    else if (t == "P17") { CALL(P17); }                \
+    BY_XTYPE(t, CALL)
 
     void perform(const std::string& op, int k, const vj::value& a, result& r)
     {
         int j = int(a.num("j", 1)) - 1;
-        bool nc = a.num("nc", 0) != 0;      // pass the source any as a non-const lvalue
+        int ncv = int(a.num("nc", 0));      // value category of the source any: 0 const lvalue, 1 non-const lvalue, 2 const rvalue
+        bool nc = ncv == 1;
         if (op == "DefaultConstruct") { need(!C[k], "raw"); new (slot(k)) xtl::any(); C[k] = true; }
         else if (op == "Construct")
         {
@@ -859,15 +1140,21 @@ namespace
         else if (op == "CopyConstruct")
         {
             need(!C[k] && C[j] && j != k, "raw<-constructed");
-            if (nc) new (slot(k)) xtl::any(A(j));
-            else new (slot(k)) xtl::any(static_cast<const xtl::any&>(A(j)));
+            {
+                c06mem::lib_scope in_library;
+                if (nc) new (slot(k)) xtl::any(A(j));
+                else if (ncv == 2) new (slot(k)) xtl::any(static_cast<const xtl::any&&>(A(j)));     // a const rvalue any is COPIED
+                else new (slot(k)) xtl::any(static_cast<const xtl::any&>(A(j)));
+            }
             C[k] = true;
         }
         else if (op == "MoveConstruct") { need(!C[k] && C[j] && j != k, "raw<-constructed"); new (slot(k)) xtl::any(std::move(A(j))); C[k] = true; }
         else if (op == "CopyAssign")
         {
             need(C[k] && C[j], "constructed");
+            c06mem::lib_scope in_library;
             if (nc) A(k) = A(j);
+            else if (ncv == 2) A(k) = static_cast<const xtl::any&&>(A(j));
             else A(k) = static_cast<const xtl::any&>(A(j));
         }
         else if (op == "MoveAssign") { need(C[k] && C[j], "constructed"); A(k) = std::move(A(j)); }
@@ -940,7 +1227,7 @@ namespace
             g_ev.clear();
             std::string st = state();
             put("{\"op\":\"Cast\",\"k\":" + std::to_string(g_k + 1) + ",\"a\":" + g_args + ",\"ev\":[" + evs + "],\"res\":" + r.json() + ",\"st\":" + st
-                + ",\"spc\":" + spc() + "}\n");
+                + ",\"spc\":" + spc() + ",\"heap\":" + std::to_string(c06mem::overflow ? -1 : c06mem::nlib) + "}\n");
             _exit(0);
         }
 #endif
@@ -1021,7 +1308,7 @@ int main()
             cleanup();
             skipping = false;
             // the build this trace comes from; ids of payload objects never restart within one process
-            std::string o = "{\"op\":\"Reset\",\"k\":1,\"a\":{\"z\":0,\"fl\":\"" C06_FLAVOUR "\",\"noexc\":" + std::string(C06_NOEXC ? "true" : "false")
+            std::string o = "{\"op\":\"Reset\",\"k\":1,\"a\":{\"z\":0,\"fl\":\"" C06_FLAVOUR "\",\"noexc\":" + std::string(C06_NOEXC ? "true" : "false") + ",\"mov\":" + std::string(C06_MOV ? "true" : "false")
                             + ",\"hi\":" + std::to_string(R.next - 1) + "}}\n";
             std::fputs(o.c_str(), stdout);
             continue;
@@ -1033,6 +1320,8 @@ int main()
         else
         {
             g_fuse = int(a.num("fuse", 0));
+            c06mem::g_afuse = int(a.num("afuse", 0));
+            c06mem::g_lib = 0;
             ++g_callno;
             g_incall = true;
             try
@@ -1053,6 +1342,8 @@ int main()
             {
                 g_incall = false;
                 g_fuse = 0;
+                c06mem::g_afuse = 0;
+                c06mem::g_lib = 0;
                 g_ev.clear();
                 skipping = true;
                 std::string o = "{\"op\":\"Desync\",\"call\":" + g_call + ",\"why\":\"" + d.what + "\"}\n";
@@ -1063,6 +1354,11 @@ int main()
             {
                 r = result();
                 r.exc = "bad_cast";
+            }
+            catch (const std::bad_alloc&)
+            {
+                r = result();
+                r.exc = "bad_alloc";
             }
             catch (const std::exception&)
             {
@@ -1075,6 +1371,8 @@ int main()
                 r.exc = "other";
             }
             g_fuse = 0;
+            c06mem::g_afuse = 0;
+            c06mem::g_lib = 0;
         }
         std::string evs = g_ev;
         g_ev.clear();
@@ -1082,7 +1380,7 @@ int main()
         g_ev.clear();
         g_incall = false;
         std::string o = "{\"op\":\"" + op + "\",\"k\":" + std::to_string(k + 1) + ",\"a\":" + g_args + ",\"ev\":[" + evs + "],\"res\":" + r.json()
-                        + ",\"st\":" + st + ",\"spc\":" + spc() + "}\n";
+                        + ",\"st\":" + st + ",\"spc\":" + spc() + ",\"heap\":" + std::to_string(c06mem::overflow ? -1 : c06mem::nlib) + "}\n";
         std::fputs(o.c_str(), stdout);
     }
     g_call.clear();
